@@ -389,7 +389,7 @@ func (wd *World) runOp(op Op) {
 			// let the stalled acknowledgements return; at-rest samples need real rest
 			for i := 0; i < 8 && wd.root.stalledNow > 0; i++ {
 				wd.root.releaseStalls()
-				if op.A == 1 || op.A == 3 {
+				if op.A == 1 || op.A == 3 || op.A == 4 {
 					simrt.WaitQuiescent()
 				}
 			}
@@ -402,6 +402,10 @@ func (wd *World) runOp(op Op) {
 		}
 		if op.A == 3 {
 			wd.sampleIdle(1)
+			wd.sample(true)
+		}
+		if op.A == 4 {
+			wd.sampleIdle(2) // end of a trickle phase
 			wd.sample(true)
 		}
 	case opInject:
